@@ -12,16 +12,21 @@ import (
 	"encoding/json"
 	"flag"
 	"fmt"
+	"go/ast"
+	"go/parser"
 	"go/scanner"
+	"go/token"
 	"go/types"
 	"os"
 	"path/filepath"
 	"regexp"
+	"runtime/debug"
 	"runtime/pprof"
 	"sort"
 	"strings"
 	"sync"
 	"sync/atomic"
+	"time"
 
 	"github.com/200sc/bebop"
 	"verif/driver"
@@ -142,9 +147,77 @@ func whereIs(src []byte, line int) string {
 	return "at package level"
 }
 
+// Compiler directives. go/types does not look at comments, but the gc compiler does: a `//go:<verb>` line comment
+// with a verb it knows must sit directly before the declaration it applies to (a func, for go:embed a var, for
+// go:build the top of the file); anywhere else it is the error "misplaced compiler directive" (cmd/compile/internal/
+// noder: pragma, checkUnused). The generator copies schema comments in front of type declarations, struct fields and
+// const specs only, never in front of a func or var, so every such directive in generated code is misplaced. This part
+// of the model was added after the go build cross-check disagreed with go/types on exactly these inputs.
+var misplacedVerbs = map[string]bool{
+	"go:build": true, "go:noescape": true, "go:norace": true, "go:nosplit": true, "go:noinline": true, "go:nocheckptr": true,
+	"go:uintptrescapes": true, "go:uintptrkeepalive": true, "go:registerparams": true, "go:cgo_unsafe_args": true,
+	"go:systemstack": true, "go:nowritebarrier": true, "go:nowritebarrierrec": true, "go:yeswritebarrierrec": true,
+	"go:embed": true, "go:linkname": true,
+}
+
+func directiveErrors(src []byte) []string {
+	if !bytes.Contains(src, []byte("//go:")) {
+		return nil
+	}
+	var out []string
+	for i, l := range bytes.Split(src, []byte("\n")) {
+		t := bytes.TrimLeft(l, " \t")
+		if !bytes.HasPrefix(t, []byte("//go:")) {
+			continue
+		}
+		text := strings.TrimRight(string(t[2:]), "\r")
+		verb := text
+		if j := strings.Index(text, " "); j >= 0 {
+			verb = text[:j]
+		}
+		bad := misplacedVerbs[verb]
+		if strings.HasPrefix(text, "go:cgo_") {
+			// only cgo_import_dynamic with at least 3 arguments is tolerated outside cgo-generated files
+			bad = !(strings.HasPrefix(text, "go:cgo_import_dynamic ") && len(strings.Fields(text)) >= 4)
+		}
+		if bad {
+			out = append(out, fmt.Sprintf("gen.go:%d:%d: compiler directive //%s in a place where the gc compiler rejects it (misplaced compiler directive)", i+1, len(l)-len(t)+1, verb))
+		}
+	}
+	return out
+}
+
+// check parses and type-checks one generated file as its own package, importing bebop / iohelp / registered packages
+// through the shared tc.Checker. Unlike tc.Check it keeps EVERY go/types error: besides unused variables and imports,
+// go/types marks e.g. "no new variables on left side of :=" and "cannot range over" as soft, and the gc compiler
+// rejects all of them (confirmed by the go build cross-check and by sensitivity demonstration 3).
+func (e *env) check(src []byte) *tc.Result {
+	fset := token.NewFileSet()
+	f, err := parser.ParseFile(fset, "gen.go", src, parser.SkipObjectResolution)
+	if err != nil {
+		return &tc.Result{ParseErr: err}
+	}
+	r := &tc.Result{}
+	conf := types.Config{Importer: e.chk, Error: func(err error) {
+		if te, ok := err.(types.Error); ok {
+			r.Errs = append(r.Errs, te)
+		}
+	}}
+	r.Pkg, _ = conf.Check(f.Name.Name, fset, []*ast.File{f}, nil)
+	return r
+}
+
 // verdict turns a type-check result into an outcome (first error = lowest source position).
 func verdict(res *tc.Result, src []byte, o *outcome) {
 	if res.OK() {
+		if de := directiveErrors(src); len(de) > 0 {
+			o.Cat, o.NErrs, o.Where = "compiler-directive", len(de), "in a comment"
+			if len(de) > 3 {
+				de = de[:3]
+			}
+			o.Errs = de
+			return
+		}
 		o.OK = true
 		return
 	}
@@ -166,12 +239,21 @@ func verdict(res *tc.Result, src []byte, o *outcome) {
 		o.Where = whereIs(src, line)
 		return
 	}
-	errs := append([]types.Error(nil), res.Errs...)
+	var errs []types.Error
+	for _, e := range res.Errs {
+		// "\tother declaration of X" lines are continuations of the preceding error, not errors
+		if !strings.HasPrefix(e.Msg, "\t") {
+			errs = append(errs, e)
+		}
+	}
+	if len(errs) == 0 {
+		errs = append(errs, res.Errs...)
+	}
 	sort.SliceStable(errs, func(i, j int) bool {
 		return errs[i].Fset.Position(errs[i].Pos).Offset < errs[j].Fset.Position(errs[j].Pos).Offset
 	})
 	o.NErrs = len(errs)
-	o.Cat = tc.Category(errs[0])
+	o.Cat = category(errs[0])
 	o.Where = whereIs(src, errs[0].Fset.Position(errs[0].Pos).Line)
 	for i, e := range errs {
 		if i < 3 {
@@ -181,10 +263,43 @@ func verdict(res *tc.Result, src []byte, o *outcome) {
 }
 
 func depMask(it *item, mask int) int {
-	if it.DepOpts == "same" {
+	switch it.DepOpts {
+	case "same":
 		return mask
+	case "public":
+		return mask &^ driver.OptPrivate
 	}
 	return 0
+}
+
+// category is tc.Category with the classes the generated-code failures need on top of it.
+func category(e types.Error) string {
+	c := tc.Category(e)
+	if c != "other" {
+		return c
+	}
+	m := e.Msg
+	switch {
+	case strings.Contains(m, "missing init expr"):
+		return "missing-init-expr"
+	case strings.Contains(m, "invalid package name"):
+		return "invalid-package-name"
+	case strings.Contains(m, "could not import") || strings.Contains(m, "cannot find package") || strings.Contains(m, "not provided"):
+		return "unresolved-import"
+	case strings.Contains(m, "is not an expression") || strings.Contains(m, "is not a package") || strings.Contains(m, "not a package"):
+		return "not-an-expression"
+	case strings.Contains(m, "cannot call non-function") || strings.Contains(m, "not enough arguments") || strings.Contains(m, "too many arguments"):
+		return "bad-call"
+	case strings.Contains(m, "invalid receiver") || strings.Contains(m, "cannot define new methods"):
+		return "invalid-receiver"
+	case strings.Contains(m, "cannot range over") || strings.Contains(m, "iteration variable"):
+		return "invalid-range"
+	case strings.Contains(m, "label ") && strings.Contains(m, "declared and not used"):
+		return "unused-label"
+	case strings.Contains(m, "use of package") || strings.Contains(m, "without selector"):
+		return "package-as-value"
+	}
+	return "other"
 }
 
 // judge decides one (schema, option set) pair. With keep, the generated sources are returned as well.
@@ -198,7 +313,7 @@ func (e *env) judge(it *item, mask int, keep bool) (o outcome, srcs []pkgSrc) {
 			return
 		}
 		atomic.AddInt64(&e.checks, 1)
-		verdict(e.chk.Check("gen.go", src), src, &o)
+		verdict(e.check(src), src, &o)
 		if keep {
 			srcs = []pkgSrc{{File: "main.bop", Src: src}}
 		}
@@ -225,7 +340,7 @@ func (e *env) judge(it *item, mask int, keep bool) (o outcome, srcs []pkgSrc) {
 				continue
 			}
 			atomic.AddInt64(&e.checks, 1)
-			res := e.chk.Check("gen.go", dsrc)
+			res := e.check(dsrc)
 			if keep {
 				srcs = append(srcs, pkgSrc{ImportPath: d.Path, File: d.File, Src: dsrc})
 			}
@@ -237,7 +352,7 @@ func (e *env) judge(it *item, mask int, keep bool) (o outcome, srcs []pkgSrc) {
 			e.chk.AddPackage(d.Path, res.Pkg)
 		}
 		atomic.AddInt64(&e.checks, 1)
-		verdict(e.chk.Check("gen.go", src), src, &o)
+		verdict(e.check(src), src, &o)
 		if keep {
 			srcs = append(srcs, pkgSrc{File: "main.bop", Src: src})
 		}
@@ -250,7 +365,7 @@ func (e *env) judge(it *item, mask int, keep bool) (o outcome, srcs []pkgSrc) {
 		return
 	}
 	atomic.AddInt64(&e.checks, 1)
-	verdict(e.chk.Check("gen.go", src), src, &o)
+	verdict(e.check(src), src, &o)
 	if keep {
 		srcs = []pkgSrc{{File: "main.bop", Src: src}}
 	}
@@ -410,20 +525,38 @@ func doReplay(path string) int {
 	}
 	fmt.Println("---")
 	bad := 0
+	var okSets, rejSets []string
 	for _, m := range masks {
 		o, _ := e.judge(it, m, false)
 		switch {
 		case o.Rejected:
-			fmt.Printf("options %-28s REJECTED by %s: %s\n", driver.OptName(m), o.Phase, o.RejMsg)
+			rejSets = append(rejSets, driver.OptName(m))
+			if len(rejSets) == 1 {
+				fmt.Printf("options %s: REJECTED by %s: %s\n", driver.OptName(m), o.Phase, o.RejMsg)
+			}
 		case o.OK:
-			fmt.Printf("options %-28s generated code type-checks\n", driver.OptName(m))
+			okSets = append(okSets, driver.OptName(m))
 		default:
 			bad++
-			fmt.Printf("options %-28s generated code does NOT compile: %d error(s), category %s, %s\n", driver.OptName(m), o.NErrs, o.Cat, o.Where)
-			for _, l := range o.Errs {
-				fmt.Printf("    %s\n", l)
+			if bad == 1 {
+				fmt.Printf("options %s: generated code does NOT compile: %d error(s), category %s, %s\n", driver.OptName(m), o.NErrs, o.Cat, o.Where)
+				for _, l := range o.Errs {
+					fmt.Printf("    %s\n", l)
+				}
+			} else {
+				first := ""
+				if len(o.Errs) > 0 {
+					first = o.Errs[0]
+				}
+				fmt.Printf("options %s: does NOT compile (%d errors, %s): %s\n", driver.OptName(m), o.NErrs, o.Cat, first)
 			}
 		}
+	}
+	if len(okSets) > 0 {
+		fmt.Printf("compiles under: %s\n", strings.Join(okSets, " "))
+	}
+	if len(rejSets) > 0 {
+		fmt.Printf("rejected under: %s\n", strings.Join(rejSets, " "))
 	}
 	if bad > 0 {
 		fmt.Printf("VIOLATION property=C12 still reproduces under %d of %d option sets\n", bad, len(masks))
@@ -439,6 +572,7 @@ func main() {
 	groups := flag.Bool("groups", false, "print every violation signature with its witnesses (for NOTES.md)")
 	nocross := flag.Bool("nocross", false, "skip the go build cross-check (debugging only)")
 	cpuprof := flag.String("cpuprofile", "", "write a CPU profile (debugging only)")
+	dump := flag.String("dump", "", "write one JSON line per enumerated schema (class, position, verdicts) to this file")
 	flag.Parse()
 	if *cpuprof != "" {
 		f, err := os.Create(*cpuprof)
@@ -454,6 +588,7 @@ func main() {
 		os.Exit(doReplay(*replay))
 	}
 	run := vlib.NewRun("C12", "model_checking")
+	debug.SetGCPercent(400)
 	e := newEnv()
 	cleanup := func() { os.RemoveAll(e.work) }
 	items := allItems(run.Thorough())
@@ -486,7 +621,9 @@ func main() {
 			e.results[j.it][j.mask] = o
 		})
 	}
+	tJudge := time.Now()
 	runJobs(jobs)
+	judgeS := time.Since(tJudge).Seconds()
 	// pass 2 (quick): an item whose verdict differs between the four option sets is judged under all 32, so that the
 	// option subset in its signature is exact and equal to what the thorough tier reports
 	var refine []job
@@ -601,6 +738,25 @@ func main() {
 		}
 	}
 
+	if *dump != "" {
+		var db bytes.Buffer
+		sigsOf := map[int][]string{}
+		for _, h := range hits {
+			sigsOf[h.it.idx] = append(sigsOf[h.it.idx], h.sig)
+		}
+		for _, it := range items {
+			acc := false
+			for m := 0; m < allMasks; m++ {
+				if o := e.results[it.idx][m]; o.Done && !o.Rejected {
+					acc = true
+				}
+			}
+			b, _ := json.Marshal(map[string]any{"prefix": it.sigPrefix(), "note": it.Note, "accepted": acc, "sigs": sigsOf[it.idx]})
+			db.Write(b)
+			db.WriteByte('\n')
+		}
+		_ = os.WriteFile(*dump, db.Bytes(), 0o644)
+	}
 	// group by signature; the witness of a signature is its smallest schema
 	bySig := map[string][]*hit{}
 	for _, h := range hits {
@@ -619,6 +775,7 @@ func main() {
 
 	// cross-validation against the real toolchain
 	var xr *crossResult
+	tCross := time.Now()
 	if !*nocross {
 		var fails []sample
 		for _, s := range sigs {
@@ -635,6 +792,7 @@ func main() {
 		}
 		os.RemoveAll(xr.Root)
 	}
+	crossS := time.Since(tCross).Seconds()
 	cleanup()
 
 	for _, s := range sigs {
@@ -715,6 +873,7 @@ func main() {
 	cov["alphabet_parts"] = parts
 	cov["rejections_by_phase"] = rejectReasons.Top(40)
 	cov["quick_tier_items_refined_to_32_option_sets"] = refined
+	cov["phase_seconds"] = map[string]any{"enumerate_and_judge": judgeS, "crosscheck_total": crossS}
 	if xr != nil {
 		cov["traces_validated_against_impl"] = xr.Checked
 		cov["go_build_crosscheck"] = map[string]any{
@@ -730,23 +889,53 @@ func main() {
 	} else {
 		cov["rule"] = "state = one (schema, option set) pair; part 1: every case of schema.Support.Cases(quick) under option sets {none, all, ptr+unsafe, private+shared}, a reduced subset (depth<=1 shapes over 12 leaves, specials) under all 32, and every case whose verdict differs among the four under all 32; part 2 (alphabet.go generators): every schema under all 32; transitions = Generate calls + type-checks; distinct_nontrivial = distinct accepted (schema text, PackageName setting, import mode) inputs"
 	}
-	cov["explanation"] = "each pair runs the real ReadFile+Generate of the working tree; the verdict is go/parser + go/types over the emitted file against bebop and iohelp type-checked from the working tree (unused variables and imports count as errors); rejected schemas assert nothing and are counted"
+	cov["explanation"] = "each pair runs the real ReadFile+Generate of the working tree; the verdict is go/parser + go/types over the emitted file against bebop and iohelp type-checked from the working tree (every go/types error counts, including the ones go/types calls soft: unused variables/imports/labels, no new variables on the left of :=), plus the gc compiler's rule for misplaced //go: directives; rejected schemas assert nothing and are counted"
 	run.Assume = append(run.Assume,
 		"compiles = parses and type-checks as one package (go/types); validated against `go build` on the stratified subset reported under go_build_crosscheck",
-		"separate import mode: the imported file is generated with the importer's option set (class importee-same-options) or with all options off (importee-default-options)",
+		"separate import mode: the imported file is generated with the importer's option set minus PrivateDefinitions (the generator documents that imported packages are assumed public); the two classes import|separate:importee-generated-with-* cover differing option sets",
 		"a file whose package clause is `package main` is accepted although `go build` wants a func main",
 	)
-	// samples
-	nS := 0
+	// samples: per alphabet part the first schema that compiles and the first that does not
+	type pick struct{ ok, bad bool }
+	picked := map[string]*pick{}
+	tail := func(t string) string {
+		if len(t) > 320 {
+			return "..." + t[len(t)-320:]
+		}
+		return t
+	}
 	for _, it := range items {
-		if nS >= 10 {
-			break
+		pk := picked[it.Part]
+		if pk == nil {
+			pk = &pick{}
+			picked[it.Part] = pk
 		}
-		if it.idx%97 == 3 || (it.Part == "import" && nS < 9 && it.idx%41 == 0) {
-			o := e.results[it.idx][0]
-			run.Sample(map[string]any{"part": it.Part, "class": it.Class, "position": it.Pos, "hazard": it.Note, "schema": vlib.Short(it.Text, 300), "verdict_opts_none": o.key(), "errors": o.Errs, "rejected_because": vlib.Short(o.RejMsg, 200)})
-			nS++
+		if pk.ok && pk.bad {
+			continue
 		}
+		var first *outcome
+		anyBad := false
+		for m := 0; m < allMasks; m++ {
+			o := &e.results[it.idx][m]
+			if !o.Done || o.Rejected {
+				continue
+			}
+			if first == nil || (!o.OK && !anyBad) {
+				first = o
+			}
+			if !o.OK {
+				anyBad = true
+			}
+		}
+		if first == nil || (anyBad && pk.bad) || (!anyBad && pk.ok) {
+			continue
+		}
+		if anyBad {
+			pk.bad = true
+		} else {
+			pk.ok = true
+		}
+		run.Sample(map[string]any{"part": it.Part, "class": it.Class, "position": it.Pos, "hazard": it.Note, "schema_tail": tail(it.Text), "compiles": !anyBad, "errors": first.Errs})
 	}
 	pprof.StopCPUProfile()
 	run.Finish()
